@@ -575,7 +575,7 @@ def segReads (hf : HashFn α H) (s : Segment α H) (size : Nat) (bm : Option (Na
   | .ok (stk, _) => if s.id.full size then [] else peakReads s bm stk (peaksIn s.id size)
   | _ => []
 
-theorem root_inj_old (hf : HashFn α H) (inj : Inj hf) (s1 s2 : Segment α H) (hid : s1.id = s2.id)
+theorem root_inj (hf : HashFn α H) (inj : Inj hf) (s1 s2 : Segment α H) (hid : s1.id = s2.id)
     (size : Nat) (bm : Option (Nat → Bool)) (wf : WellFormedRange s1.id size) (o1 o2 : Option H)
     (h1 : s1.root hf size bm = .ok o1) (h2 : s2.root hf size bm = .ok o2) :
     o1.isSome = o2.isSome ∧ (o1 = o2 → segReads hf s1 size bm = segReads hf s2 size bm) := by
@@ -584,12 +584,12 @@ theorem root_inj_old (hf : HashFn α H) (inj : Inj hf) (s1 s2 : Segment α H) (h
   simp only at h1 h2 ⊢
   rw [← hid] at h2 ⊢
   cases hl1 : rootLoop hf s1 bm size ([], s1.leafPos.zip s1.leafData) (s1.id.positions size) with
-  | err e => simp [hl1] at h1
-  | panic => simp [hl1] at h1
+  | err e => (rw [hl1] at h1; cases h1)
+  | panic => (rw [hl1] at h1; cases h1)
   | ok f1 =>
     cases hl2 : rootLoop hf s2 bm size ([], s2.leafPos.zip s2.leafData) (s1.id.positions size) with
-    | err e => simp [hl2] at h2
-    | panic => simp [hl2] at h2
+    | err e => (rw [hl2] at h2; cases h2)
+    | panic => (rw [hl2] at h2; cases h2)
     | ok f2 =>
       obtain ⟨stk1, it1⟩ := f1
       obtain ⟨stk2, it2⟩ := f2
@@ -618,12 +618,12 @@ theorem root_inj_old (hf : HashFn α H) (inj : Inj hf) (s1 s2 : Segment α H) (h
             (s1.id.posRange size).1 ≤ p && p ≤ (s1.id.posRange size).2).reverse := rfl
         rw [← hpk] at h1 h2
         cases hb1 : bagPeaks hf s1 bm size stk1 none (peaksIn s1.id size) with
-        | err e => simp [hb1] at h1
-        | panic => simp [hb1] at h1
+        | err e => (rw [hb1] at h1; cases h1)
+        | panic => (rw [hb1] at h1; cases h1)
         | ok w1 =>
           cases hb2 : bagPeaks hf s2 bm size stk2 none (peaksIn s1.id size) with
-          | err e => simp [hb2] at h2
-          | panic => simp [hb2] at h2
+          | err e => (rw [hb2] at h2; cases h2)
+          | panic => (rw [hb2] at h2; cases h2)
           | ok w2 =>
             simp only [hb1, hb2] at h1 h2
             obtain ⟨hv, hbk⟩ := bagPeaks_inj hf inj s1 s2 bm size _ _ _ _ _ _ _ hb1 hb2 hsh rfl
